@@ -379,17 +379,19 @@ class Visitor(ast.NodeVisitor):
             if recomputed_format_spec is PLACEHOLDER or recomputed_value is PLACEHOLDER:
                 return PLACEHOLDER
 
-            fmt = ["{"]
+            # The value is converted and formatted directly, as the f-string does it. (The format specification
+            # is not pasted into a format string: a brace in it would be taken for a replacement field.)
+            #
             # See https://docs.python.org/3/library/ast.html#ast.FormattedValue for these
             # constants
             if node.conversion == -1:
-                pass
+                converted = recomputed_value  # type: Any
             elif node.conversion == 115:
-                fmt.append("!s")
+                converted = str(recomputed_value)
             elif node.conversion == 114:
-                fmt.append("!r")
+                converted = repr(recomputed_value)
             elif node.conversion == 97:
-                fmt.append("!a")
+                converted = ascii(recomputed_value)
             else:
                 raise NotImplementedError(
                     "Unhandled conversion of a formatted value node {!r}: {}".format(
@@ -397,12 +399,10 @@ class Visitor(ast.NodeVisitor):
                     )
                 )
 
-            if recomputed_format_spec is not None:
-                fmt.append(f":{recomputed_format_spec}")
-
-            fmt.append("}")
-
-            return "".join(fmt).format(recomputed_value)
+            return format(
+                converted,
+                "" if recomputed_format_spec is None else recomputed_format_spec,
+            )
 
         def visit_JoinedStr(self, node: ast.JoinedStr) -> Union[str, Placeholder]:
             """Visit the values and concatenate them."""
